@@ -104,7 +104,13 @@ def provenance(task, cid):
             ps[name] = p.value_repr()
     ins = []
     for name, t in task.input_tasks.items():
-        ins.append([name.split('::')[-1], t.value if isinstance(t, Task) else {'__default__': json_safe(t)}])
+        if isinstance(t, Task):
+            val = t.value
+            if isinstance(val, Path):      # a directory result: described by what it contains
+                val = {'__dir__': sorted(str(p.relative_to(val)) for p in val.rglob('*'))}
+        else:
+            val = {'__default__': json_safe(t)}
+        ins.append([name.split('::')[-1], val])
     task.logger.info(f'token:{task.slugname}')
     task.save_to_run_info({'inputs': len(ins)})
     task.save_to_run_info('second')
